@@ -17,7 +17,7 @@ from common import Model, hx
 from sims import adv_tags as A
 from sims.adv_run import run_real, script_line, cmd_hash
 
-LEAN_TARGETS = ["NfcVerif.Props.C08", "drv_c08"]
+LEAN_TARGETS = ["NfcVerif.Props.C08", "drv_c08", "NfcVerif.Props.TablesTag", "NfcVerif.Props.TablesIso"]
 
 THEOREMS = [
     "NfcVerif.C08.t1_read_safe", "NfcVerif.C08.t2_read_safe", "NfcVerif.C08.t3_read_safe", "NfcVerif.C08.t4_read_safe",
@@ -361,6 +361,7 @@ class Runner(object):
 
 
 def run(ck):
+    ck.tables("TablesTag", "TablesIso")   # T-tie for constants: source tables re-extracted, bridge theorems re-proved
     ck.lean("NfcVerif.Props.C08", THEOREMS)
     rng = ck.rng
     R = Runner(ck)
